@@ -124,6 +124,9 @@ def main():
             obs.install()
             if cfg.get("ins_signal"):
                 obs.arm_signal(cfg["ins_signal"])
+            script_state = None
+            if cfg.get("ins_script"):
+                script_state = _install_ins_script(obs, cfg["ins_script"], cfg["seed"])
             if cfg.get("fs_faults"):
                 from .observe import FsFaults
 
@@ -152,6 +155,10 @@ def main():
             for k in range(int(cfg.get("run_again", 0))):
                 fs.run(plot=False, save=False)
                 obs.done_event(fs, "done_again")
+            if script_state is not None:
+                em.emit("ins_replay", calls=int(script_state["calls"]), overrun=int(script_state["overrun"]),
+                        iterations=int(fs.ns.iteration), finalised=bool(fs.ns.finalised),
+                        expected_it=int(cfg["ins_script"]["it"]))
         else:
             raise SystemExit(f"unknown kind {cfg['kind']}")
     except SystemExit:
@@ -164,6 +171,43 @@ def main():
                 tb=[l.strip()[:160] for l in traceback.format_exc().splitlines() if l.strip().startswith("File")][-4:])
         sys.exit(3)
     sys.exit(0)
+
+
+def _install_ins_script(obs, script, seed):
+    """spec -> code replay of the importance sampler's stopping rule (SimImportanceSampler.tla): after the
+    real criteria are computed, the values of the user's criteria are replaced by scripted ones - at the
+    tolerance (met, with equality), below it (met) or above it (not met) - exactly as the behaviour of the
+    specification says; the attributes are set too, so the history reports what the loop compares."""
+    import random
+
+    from nessai.samplers.importancesampler import ImportanceNestedSampler as INS
+
+    rng = random.Random(int(seed) * 7919 + 13)
+    met = [list(map(bool, m)) for m in script["met"]]
+    state = {"calls": 0, "overrun": 0}
+    orig = INS.compute_stopping_criterion
+    obs.scripted_criteria = True
+
+    def compute_stopping_criterion(ns):
+        cond = list(orig(ns))
+        k = state["calls"]
+        state["calls"] += 1
+        if k < len(met):
+            row = met[k]
+        else:                       # the specification's behaviour had ended: the real loop went on
+            state["overrun"] += 1
+            row = [True] * len(cond)
+        for j, (name, tol) in enumerate(zip(ns.stopping_criterion, ns.tolerance)):
+            if row[j]:
+                val = float(tol) if rng.random() < 0.5 else float(tol) - 0.5
+            else:
+                val = float(tol) + 0.5
+            setattr(ns, name, val)
+            cond[j] = val
+        return cond
+
+    INS.compute_stopping_criterion = compute_stopping_criterion
+    return state
 
 
 if __name__ == "__main__":
